@@ -247,16 +247,6 @@ Section Arith.
     apply (substs_of_eq_sound c s H). unfold sat_all in Hs. rewrite Forall_forall in Hs. auto.
   Qed.
 
-  Lemma subst_seqs_sound eqs sq : In sq (subst_seqs eqs) -> sat_all rho eqs -> Forall valid_subst sq.
-  Proof.
-    unfold subst_seqs. intros H Hs. destruct H as [<-|H]; [constructor|].
-    apply in_app_or in H. destruct H as [H|H].
-    - apply in_map_iff in H. destruct H as (s & <- & H). constructor; [|constructor].
-      eapply substs1_sound; eauto.
-    - apply in_flat_map in H. destruct H as (s & H1 & H). apply in_map_iff in H. destruct H as (t & <- & H2).
-      constructor; [eapply substs1_sound; eauto|]. constructor; [eapply substs1_sound; eauto|constructor].
-  Qed.
-
   Lemma cmp_holds_comp o x x' y y' : x == x' -> y == y' -> (cmp_holds o x y <-> cmp_holds o x' y').
   Proof. intros Hx Hy. destruct o; simpl; rewrite Hx, Hy; reflexivity. Qed.
 
@@ -265,6 +255,28 @@ Section Arith.
     intros [H1 H2]. unfold sat, cdefined, csubst. simpl. split.
     - apply cmp_holds_comp; apply eval_esubst; exact H1.
     - intros [Dl Dr]. split; apply defined_esubst; assumption.
+  Qed.
+
+  (* an equality rewritten by a valid substitution still holds, so what it is solved for is valid too *)
+  Lemma derived_substs_sound eqs s t :
+    valid_subst s -> In t (derived_substs eqs s) -> sat_all rho eqs -> valid_subst t.
+  Proof.
+    unfold derived_substs. intros Vs H Hs. apply in_flat_map in H. destruct H as (e & He & H).
+    apply (substs_of_eq_sound (csubst s e) t H). apply (proj1 (csubst_sound s e Vs)).
+    unfold sat_all in Hs. rewrite Forall_forall in Hs. auto.
+  Qed.
+
+  Lemma subst_seqs_sound eqs sq : In sq (subst_seqs eqs) -> sat_all rho eqs -> Forall valid_subst sq.
+  Proof.
+    unfold subst_seqs. intros H Hs. destruct H as [<-|H]; [constructor|].
+    apply in_app_or in H. destruct H as [H|H].
+    - apply in_map_iff in H. destruct H as (s & <- & H). constructor; [|constructor].
+      eapply substs1_sound; eauto.
+    - apply in_flat_map in H. destruct H as (s & H1 & H). apply in_map_iff in H. destruct H as (t & <- & H2).
+      assert (Vs : valid_subst s) by (eapply substs1_sound; eauto).
+      constructor; [exact Vs|]. constructor; [|constructor].
+      apply in_app_or in H2. destruct H2 as [H2|H2]; [eapply substs1_sound; eauto|].
+      eapply derived_substs_sound; eauto.
   Qed.
 
   Lemma apply_seq_sound sq : forall c, Forall valid_subst sq ->
@@ -811,4 +823,14 @@ Example check_or_rejects_dropped_disjunct :
   let c1 := {| c_op := CEq; c_l := EBin OAdd x y; c_r := ENum 1 |} in
   let c2 := {| c_op := CLe; c_l := EBin OAdd x y; c_r := ENum (3 # 2) |} in
   check_or 2 [] [c1; c2] [c1] = false /\ check_or 2 [] [c1; c2] [c2; c1] = true /\ check_pre 2 [] [c1; c2] [c1] = true.
+Proof. vm_compute. repeat split; reflexivity. Qed.
+
+(* two equalities that fix the same function determine a second one: 10 f = 9 g and f = - g give g = 0 (a substitution
+   solved from the first equality after the second was applied to it); f w + g < 1 is then implied *)
+Example implied_by_two_equalities :
+  let f := EVar "( f )" in let g := EVar "( g )" in let w := EVar "( w )" in
+  let a1 := {| c_op := CEq; c_l := EBin OMul (ENum 10) f; c_r := EBin OMul (ENum 9) g |} in
+  let a2 := {| c_op := CEq; c_l := f; c_r := EBin OSub (ENum 0) g |} in
+  let c := {| c_op := CLt; c_l := EBin OAdd (EBin OMul f w) g; c_r := ENum 1 |} in
+  implied [a1; a2] c = true /\ implied [a1] c = false /\ implied [a2] c = false.
 Proof. vm_compute. repeat split; reflexivity. Qed.
